@@ -78,6 +78,7 @@ pub fn profile(prop: &str, tier: &str) -> Profile {
         prober_ops: 4,
         prober_weights: w(PROBER),
         script_bias: 0,
+        prefill: true,
     };
     match prop {
         "C01" => Profile { name: "C01", ..base },
@@ -373,6 +374,8 @@ pub fn profile(prop: &str, tier: &str) -> Profile {
             pays: vec![Pay::P4, Pay::P16],
             caps: vec![Cap::N(0), Cap::N(1), Cap::N(2), Cap::Unbounded],
             prober_ops: 3,
+            // the explainability search is exponential in the number of operations
+            prefill: false,
             ..base
         },
         _ => base,
